@@ -223,11 +223,17 @@ def pristine():
     return _PRISTINE
 
 
+_IDGEN_CODE = None
+
+
 def _fresh_idgen():
-    i = 1
-    while 1:
-        yield 'a%.10d' % i
-        i += 1
+    """a new instance of plasTeX's OWN generator of automatic identifiers (the module keeps only the running generator
+    object; its code is taken from there), so that a change to that generator is not hidden by the harness"""
+    global _IDGEN_CODE
+    import plasTeX
+    if _IDGEN_CODE is None:
+        _IDGEN_CODE = plasTeX.idgen.gi_code
+    return types.FunctionType(_IDGEN_CODE, vars(plasTeX))()
 
 
 _GEN_BASES = None
